@@ -1,4 +1,22 @@
+import ActixModel.Drv.C01
+import ActixModel.Drv.C02
+import ActixModel.Drv.C03
+import ActixModel.Drv.C04
+import ActixModel.Drv.C05
+import ActixModel.Drv.C06
+import ActixModel.Drv.C07
+import ActixModel.Drv.C08
+import ActixModel.Drv.C09
+import ActixModel.Drv.C10
+import ActixModel.Drv.C11
+import ActixModel.Drv.C12
+import ActixModel.Drv.C13
+import ActixModel.Drv.C14
+import ActixModel.Drv.C15
+import ActixModel.Drv.C16
+import ActixModel.Drv.C17
 import ActixModel.Drv.C18
+import ActixModel.Drv.C19
 /-
 `actix_model_driver <prop>`: reads one case per line on stdin, writes one result line per case.
 Imports only `ActixModel.Drv.*` (which import only `ActixModel.Model.*`/`Util`): no Mathlib, so
@@ -8,7 +26,25 @@ open ActixModel
 
 def dispatch (prop : String) : Option (String → String) :=
   match prop with
+  | "c01" => some Drv.C01.run
+  | "c02" => some Drv.C02.run
+  | "c03" => some Drv.C03.run
+  | "c04" => some Drv.C04.run
+  | "c05" => some Drv.C05.run
+  | "c06" => some Drv.C06.run
+  | "c07" => some Drv.C07.run
+  | "c08" => some Drv.C08.run
+  | "c09" => some Drv.C09.run
+  | "c10" => some Drv.C10.run
+  | "c11" => some Drv.C11.run
+  | "c12" => some Drv.C12.run
+  | "c13" => some Drv.C13.run
+  | "c14" => some Drv.C14.run
+  | "c15" => some Drv.C15.run
+  | "c16" => some Drv.C16.run
+  | "c17" => some Drv.C17.run
   | "c18" => some Drv.C18.run
+  | "c19" => some Drv.C19.run
   | _ => none
 
 partial def loop (h : IO.FS.Stream) (out : IO.FS.Stream) (f : String → String) : IO Unit := do
